@@ -167,4 +167,376 @@ static void prop_c01(Tape &t, Result &r) {
 }
 static Reg reg_c01({"C01", 500, prop_c01, nullptr, nullptr});
 
+// ------------------------------------------------------------------------------------ C07
+struct AbortRun {};
+
+static void prop_c07(Tape &t, Result &r) {
+  gp::GenCfg cfg;
+  cfg.user_macros = false;
+  cfg.max_stmts = 30;
+  Case c;
+  decode_case(t, cfg, true, c);
+  r.sample = case_json(c);
+  r.hash = glue::files_hash(c.layout.files, c.layout.main);
+  add_feature_classes(c, r);
+  Theo::CodegenResult cr;
+  if (!compile_case(c, cr, r, "step")) return;
+  ri::Interp in(c.prog, &c.layout);
+  in.max_ops = 3000;
+  Theo::VM vm(cr.code);
+  vm.setSteppingMode(true);
+  long stops = 0, loop_exits = 0, callee_ends = 0, headers = 0;
+  in.on_site = [&](long tok, int kind) {
+    const auto &loc = c.layout.tokpos[(size_t)tok];
+    bool done_before = vm.isDone();
+    vm.execute();
+    int ip1 = vm.verif_ip();
+    // execute() returns right after a site or at HALT. A site directly before HALT leaves isDone() true
+    // although the stop did happen, so: not done before + the instruction before ip is a site.
+    bool at_site = !done_before && ip1 > 0 && cr.code.line_info.count(ip1 - 1) > 0;
+    std::string where = "stop #" + std::to_string(stops) + " (expected " + loc.first + ":" + std::to_string(loc.second) + "): ";
+    if (!at_site) {
+      r.fail("step:missing-stop", where + "the VM ran to the end instead of stopping there");
+      throw AbortRun();
+    }
+    Theo::BreakPoint bp = vm.getCurrentBreak();
+    if (bp.file != loc.first || bp.line != loc.second) {
+      r.fail("step:wrong-location", where + "VM stopped at " + bp.file + ":" + std::to_string(bp.line));
+      throw AbortRun();
+    }
+    if (!compare_state(vm, cr.code, in, r, "step", where)) throw AbortRun();
+    stops++;
+    if (kind == 1) headers++;
+    if (kind == 2) loop_exits++;
+    if (kind == 3) callee_ends++;
+  };
+  ri::Interp::Status st;
+  try {
+    st = in.execute();
+  } catch (AbortRun &) {
+    return;
+  }
+  if (st == ri::Interp::DONE) {
+    bool done_before = vm.isDone();
+    vm.execute();
+    int ip1 = vm.verif_ip();
+    if (!done_before && ip1 > 0 && cr.code.line_info.count(ip1 - 1) > 0) {
+      Theo::BreakPoint bp = vm.getCurrentBreak();
+      r.fail("step:extra-stop", "after the last expected stop (#" + std::to_string(stops) + ") the VM stopped again at " + bp.file + ":" +
+                                    std::to_string(bp.line));
+      return;
+    }
+    if (!vm.isDone()) {
+      r.fail("step:not-done", "after the last stop execute() returned but the VM is not at the end of the program");
+      return;
+    }
+    if (!compare_state(vm, cr.code, in, r, "step", "at the end: ")) return;
+    r.cls("ref:terminated");
+  } else {
+    r.cls(st == ri::Interp::BIG ? "ref:big-values(prefix compared)" : "ref:diverged(prefix compared)");
+  }
+  if (loop_exits) r.cls("stops:loop-exit");
+  if (callee_ends) r.cls("stops:callee-END");
+  if (headers) r.cls("stops:header");
+  r.nontrivial = stops >= 6 && loop_exits >= 1 && callee_ends >= 1;
+}
+static Reg reg_c07({"C07", 500, prop_c07, nullptr, nullptr});
+
+// ------------------------------------------------------------------------------------ C19
+static bool frames_ok(Theo::VM &vm, std::string &why) {
+  auto fr = vm.verif_frames();
+  long expect = 0;
+  for (size_t i = 0; i < fr.size(); i++) {
+    if (fr[i].data_start != expect) {
+      why = "frame " + std::to_string(i) + " starts at word " + std::to_string(fr[i].data_start) + ", expected " + std::to_string(expect) +
+            " (frames must be contiguous in call order)";
+      return false;
+    }
+    if (fr[i].seg_size < 0) {
+      why = "frame " + std::to_string(i) + " has negative size";
+      return false;
+    }
+    expect += fr[i].seg_size;
+  }
+  if ((long)vm.verif_data().size() != expect) {
+    why = "data memory holds " + std::to_string(vm.verif_data().size()) + " words, live frames account for " + std::to_string(expect);
+    return false;
+  }
+  return true;
+}
+
+static void prop_c19(Tape &t, Result &r) {
+  gp::GenCfg cfg;
+  cfg.user_macros = t.chance(1, 4);
+  cfg.force_call_in_loop = t.chance(1, 2);
+  Case c;
+  decode_case(t, cfg, false, c);
+  r.sample = case_json(c);
+  r.hash = glue::files_hash(c.layout.files, c.layout.main);
+  add_feature_classes(c, r);
+  Theo::CodegenResult cr;
+  if (!compile_case(c, cr, r, "mem")) return;
+  Theo::VM vm(cr.code);
+  long returns = 0, maxdepth = 0;
+  size_t maxwords = 0;
+  size_t prev_depth = 0;
+  std::string why;
+  for (long i = 0; i < 30000 && !vm.isDone(); i++) {
+    vm.executeSingle();
+    size_t d = vm.getActivations().size();
+    if (d < prev_depth) returns++;
+    prev_depth = d;
+    maxdepth = std::max<long>(maxdepth, (long)d);
+    maxwords = std::max(maxwords, vm.verif_data().size());
+    if (!frames_ok(vm, why)) {
+      r.fail("mem:frame-accounting", "after instruction " + std::to_string(i) + " (" + std::to_string(returns) + " returns so far): " + why);
+      return;
+    }
+  }
+  if (vm.isDone()) r.cls("run:finished");
+  if (returns >= 3) r.cls("run:>=3-returns");
+  if (returns >= 20) r.cls("run:>=20-returns");
+  r.nontrivial = returns >= 3;
+}
+static Reg reg_c19({"C19", 500, prop_c19, nullptr, nullptr});
+
+// ------------------------------------------------------------------------------------ C16 (accept direction)
+static void prop_c16(Tape &t, Result &r) {
+  gp::GenCfg cfg;
+  cfg.loops_only = t.chance(2, 3);
+  cfg.user_macros = false;
+  cfg.max_depth = 3;
+  Case c;
+  decode_case(t, cfg, false, c);
+  r.sample = case_json(c);
+  r.hash = glue::files_hash(c.layout.files, c.layout.main);
+  add_feature_classes(c, r);
+  if (cfg.loops_only) r.cls("loop-only-program");
+  Theo::CodegenResult cr;
+  if (!compile_case(c, cr, r, "rec")) return;
+  // static: call graph over EXEC entries is acyclic
+  const auto &code = cr.code.code;
+  std::set<int> entries;
+  for (auto &ins : code)
+    if (ins.op == Theo::OpCode::EXEC) entries.insert(ins.parameters.exec.entry);
+  auto routine_of = [&](int idx) {  // entry of the routine containing idx, or -1 for the root
+    int best = -1;
+    for (int e : entries) {
+      if (e > idx) break;
+      // extent: [e, first RET >= e]
+      int end = e;
+      while (end < (int)code.size() && code[(size_t)end].op != Theo::OpCode::RET) end++;
+      if (idx <= end) best = e;
+    }
+    return best;
+  };
+  std::map<int, std::set<int>> edges;
+  for (int i = 0; i < (int)code.size(); i++)
+    if (code[(size_t)i].op == Theo::OpCode::EXEC) edges[routine_of(i)].insert(code[(size_t)i].parameters.exec.entry);
+  {
+    std::map<int, int> state;
+    std::function<bool(int)> dfs = [&](int n) {
+      state[n] = 1;
+      for (int m : edges[n]) {
+        if (state[m] == 1) return false;
+        if (state[m] == 0 && !dfs(m)) return false;
+      }
+      state[n] = 2;
+      return true;
+    };
+    for (auto &e : edges)
+      if (state[e.first] == 0 && !dfs(e.first)) {
+        r.fail("rec:cyclic-call-graph", "the EXEC graph of the emitted program has a cycle");
+        return;
+      }
+  }
+  ri::Interp in(c.prog, nullptr);
+  ri::Interp::Status st = in.execute();
+  size_t limit = c.prog.defs.size() + 1;
+  Theo::VM vm(cr.code);
+  long long budget = st == ri::Interp::DONE ? 40 * in.work + 4000 : 20000;
+  long long i = 0;
+  for (; i < budget && !vm.isDone(); i++) {
+    vm.executeSingle();
+    if (vm.getActivations().size() > limit) {
+      r.fail("rec:activation-stack-too-deep", "activation stack has " + std::to_string(vm.getActivations().size()) + " entries with " +
+                                                  std::to_string(c.prog.defs.size()) + " program definitions");
+      return;
+    }
+  }
+  if (cfg.loops_only) {
+    if (st == ri::Interp::DIVERGED || st == ri::Interp::BIG) {
+      r.discard = true;  // halts, but not within the budget this check can afford / values too big
+      r.cls("loop-only:over-budget");
+      return;
+    }
+    if (!vm.isDone()) {
+      r.fail("rec:loop-program-does-not-halt", "LOOP-only program: reference halts after " + std::to_string(in.ops) +
+                                                   " steps, VM still running after " + std::to_string(budget) + " instructions");
+      return;
+    }
+    if (!compare_state(vm, cr.code, in, r, "rec", "LOOP-only program, at the end: ")) return;
+    r.nontrivial = c.feat.loop_nest2 && c.gen_classes.count("loop-modifies-bound") && in.loop_iters >= 2;
+    if (c.feat.loop_nest2) r.cls("loop-nesting>=2");
+  } else {
+    if (st == ri::Interp::DONE && vm.isDone()) r.cls("general:terminated");
+    r.nontrivial = in.max_depth >= 3;
+    if (in.max_depth >= 3) r.cls("call-depth>=3");
+  }
+}
+static Reg reg_c16({"C16", 500, prop_c16, nullptr, nullptr});
+
+// ------------------------------------------------------------------------------------ C20
+static bool words_ok(Theo::VM &vm, std::string &why) {
+  const auto &d = vm.verif_data();
+  for (size_t i = 0; i < d.size(); i++)
+    if (d[i] < 0 || d[i] > 2147483647) {  // (an int cannot exceed it; kept for clarity)
+      why = "data word " + std::to_string(i) + " holds " + std::to_string(d[i]);
+      return false;
+    }
+  return true;
+}
+
+static void prop_c20_run(Tape &t, Result &r) {
+  gp::GenCfg cfg;
+  cfg.big = true;
+  cfg.user_macros = t.chance(1, 5);
+  Case c;
+  decode_case(t, cfg, false, c);
+  // classic doubling: x := 1; LOOP n DO x := RUN dbl ... END is covered by macros; add an explicit doubling prefix
+  r.sample = case_json(c);
+  r.hash = glue::files_hash(c.layout.files, c.layout.main);
+  Theo::CodegenResult cr;
+  if (!compile_case(c, cr, r, "arith")) return;
+  std::vector<int> finals[2];
+  bool overflowed = false;
+  long overflow_at = -1;
+  for (int pass = 0; pass < 2; pass++) {
+    Theo::VM vm(cr.code);
+    std::string why;
+    for (long i = 0; i < 20000 && !vm.isDone(); i++) {
+      const Theo::Instruction &ins = vm.verif_code().code[(size_t)vm.verif_ip()];
+      if (ins.op == Theo::OpCode::ADD_CONST && !vm.verif_frames().empty()) {
+        long base = vm.verif_frames().back().data_start;
+        long long m = (long long)vm.verif_data()[(size_t)(base + ins.parameters.add.source)] + ins.parameters.add.constant;
+        if (m > 2147483647LL && !overflowed) {
+          overflowed = true;
+          overflow_at = i;
+        }
+      }
+      vm.executeSingle();
+      if (!words_ok(vm, why)) {
+        r.fail("arith:value-out-of-range", "after instruction " + std::to_string(i) + ": " + why);
+        return;
+      }
+    }
+    finals[pass] = vm.verif_data();
+  }
+  if (finals[0] != finals[1]) {
+    r.fail("arith:nondeterministic", "two runs of the same program ended with different data memory");
+    return;
+  }
+  if (overflowed) r.cls("run:addition-exceeds-word-range");
+  (void)overflow_at;
+  r.nontrivial = overflowed;
+}
+
+// numeric literals of any length in every literal position
+static void prop_c20_lit(Tape &t, Result &r) {
+  // literal: around 2^31, or many digits
+  std::string lit;
+  long long base = 2147483647LL;
+  bool too_big;
+  switch (t.weighted({6, 2, 2, 1})) {
+    case 0: {
+      long long v = base + t.range(-3, 3);
+      lit = std::to_string(v);
+      too_big = v >= base;
+      r.cls("literal:within-3-of-boundary");
+      break;
+    }
+    case 1: {  // long digit strings
+      int n = t.range(10, 40);
+      lit.push_back((char)('1' + t.pick(9)));
+      for (int i = 1; i < n; i++) lit.push_back((char)('0' + t.pick(10)));
+      too_big = lit.size() > 10 || (lit.size() == 10 && lit >= std::string("2147483647"));
+      r.cls("literal:long");
+      break;
+    }
+    case 2: {  // powers of two and neighbours that wrap 32-bit conversions
+      static const long long W[] = {4294967296LL, 4294967297LL, 4294967295LL, 2147483648LL, 8589934592LL, 4294967301LL, 2147483646LL};
+      long long v = W[t.pick(7)];
+      lit = std::to_string(v);
+      too_big = v >= base;
+      r.cls("literal:wraps-32-bit");
+      break;
+    }
+    default: {
+      long long v = t.range(0, 100000);
+      lit = std::to_string(v);
+      too_big = false;
+      r.cls("literal:small");
+      break;
+    }
+  }
+  std::string src;
+  bool macro_index = false;
+  switch (t.pick(7)) {
+    case 0: src = "x0 := " + lit; r.cls("pos:assignment"); break;
+    case 1: src = "x0 := 1; IF x0 = " + lit + " THEN GOTO e; x1 := 2; e: x2 := 3"; r.cls("pos:if-constant"); break;
+    case 2: src = "PROGRAM f IN a DO x0 := a END x0 := RUN f WITH " + lit + " END"; r.cls("pos:argument"); break;
+    case 3: src = "x0 := x1 + " + lit; r.cls("pos:sugar-plus"); break;
+    case 4: src = "x1 := 5; x0 := x1 - " + lit; r.cls("pos:sugar-minus"); break;
+    case 5: src = "DEFINE PRIO " + lit + " NOP <ID> AS $0 := $0 END DEFINE x0 := 1; NOP x0"; r.cls("pos:macro-priority"); break;
+    case 6:
+      src = "DEFINE TWICE <ID> AS $0 := $0; $" + lit + " := 1 END DEFINE x0 := 1; TWICE x0";
+      macro_index = true;
+      r.cls("pos:insertion-index");
+      break;
+  }
+  glue::Files files{{"m", src}};
+  r.sample = glue::files_json(files, "m");
+  r.hash = glue::files_hash(files, "m");
+  Theo::CodegenResult cr = Theo::compile(files, "m");
+  bool has_range = false;
+  for (auto &e : cr.errors)
+    if (e.message.find("out of range") != std::string::npos) has_range = true;
+  if (macro_index) {
+    // only index 0 exists; the property names literals and priorities, so for $n only "incorrect" is asserted
+    if (lit != "0" && cr.generated_correctly)
+      r.fail("arith:bad-insertion-index-accepted", "$" + lit + " references no template slot but the program compiled correctly");
+    r.nontrivial = too_big;
+    return;
+  }
+  if (too_big && (cr.generated_correctly || !has_range))
+    r.fail("arith:literal-not-rejected", "literal " + lit + " does not fit the word but " +
+                                             (cr.generated_correctly ? "the program compiled correctly" : "no range error was reported"));
+  else if (!too_big && has_range)
+    r.fail("arith:literal-wrongly-rejected", "literal " + lit + " fits the word but a range error was reported");
+  else if (!too_big && !cr.generated_correctly)
+    r.fail("arith:valid-literal-program-rejected", "program with in-range literal " + lit + " was rejected: " +
+                                                       (cr.errors.empty() ? "" : cr.errors[0].message));
+  else if (!too_big) {
+    // run it: the stored constant must be the literal's value
+    Theo::VM vm(cr.code);
+    std::string why;
+    for (long i = 0; i < 5000 && !vm.isDone(); i++) {
+      vm.executeSingle();
+      if (!words_ok(vm, why)) {
+        r.fail("arith:value-out-of-range", why);
+        return;
+      }
+    }
+  }
+  r.nontrivial = true;
+}
+
+static void prop_c20(Tape &t, Result &r) {
+  if (t.chance(1, 3))
+    prop_c20_lit(t, r);
+  else
+    prop_c20_run(t, r);
+}
+static Reg reg_c20({"C20", 500, prop_c20, nullptr, nullptr});
+
 VERIF_MAIN
